@@ -41,6 +41,7 @@ def box(name, N):
 
 
 BOXES = ("B0", "B1", "B2", "B3")
+INT_BOXES = ("Z",)
 # end points whose differences and products are not exactly representable: the cube-to-box map rounds
 ENDS = (-3.0, -2.8, -1.1, -0.7, 0.1, 0.3, 0.6, 1.3, 7.7)
 LATTICE_BOXES = tuple(f"L:{a}:{b}" for i, a in enumerate(ENDS) for b in ENDS[i + 1:])
@@ -54,7 +55,7 @@ class EnvProblem(Problem):
     """Objective = environment.  answer(k, y) is asked for the k-th evaluation attempt (1-based)
     and may raise.  Every successful evaluation is logged as (y copy, value)."""
 
-    def __init__(self, N, lower, upper, answer, fresh_holder=False):
+    def __init__(self, N, lower, upper, answer, fresh_holder=False, int_bounds=False):
         super().__init__()
         self.fresh_holder = fresh_holder   # return a new FunctionValue instead of filling the supplied one
         self.numberOfFloatVariables = N
@@ -63,6 +64,9 @@ class EnvProblem(Problem):
         self.floatVariableNames = np.array([f"x{i}" for i in range(N)], dtype=str)
         self.lowerBoundOfFloatVariables = np.array(lower, dtype=np.double)
         self.upperBoundOfFloatVariables = np.array(upper, dtype=np.double)
+        if int_bounds:      # bounds written as integers by the user (integer-typed arrays)
+            self.lowerBoundOfFloatVariables = np.array([int(v) for v in lower], dtype=np.int64)
+            self.upperBoundOfFloatVariables = np.array([int(v) for v in upper], dtype=np.int64)
         self.answer = answer
         self.calls = 0
         self.log = []
@@ -164,11 +168,13 @@ class Snapshot:
 
 class SolverRun:
     def __init__(self, N=1, lower=None, upper=None, r=2.0, eps=0.01, itersLimit=20000, answer=None,
-                 density=None, refine=False, listeners=(), problem=None, fresh_holder=False, other=None):
+                 density=None, refine=False, listeners=(), problem=None, fresh_holder=False, other=None,
+                 int_bounds=False):
         lower = [0.0] * N if lower is None else lower
         upper = [1.0] * N if upper is None else upper
         self.N = N
-        self.problem = problem if problem is not None else EnvProblem(N, lower, upper, answer, fresh_holder)
+        self.problem = problem if problem is not None else EnvProblem(N, lower, upper, answer, fresh_holder,
+                                                                             int_bounds)
         kw = dict(eps=eps, r=r, itersLimit=itersLimit, refineSolution=refine)
         if density is not None:
             kw["evolventDensity"] = density
